@@ -91,6 +91,8 @@ def gen_script(rnd):
                 st, f = "(%s == %s) * %s" % (x, y, x), "eq(const-one-wire)"
             elif c < 0.83:
                 st, f = "%s * 1\n    %s.assert_lt(1000)" % (x, x), "assert-int(const-one-wire)"
+            elif c < 0.86:
+                st, f = "%s + 0\n    %s.val()" % (x, x), "public-output-inside-function"
             elif funs and c < 0.95:
                 g, gar, gres = rnd.choice(funs)
                 st = "%s(%s)%s" % (g, ", ".join(rnd.choice(names) for _ in range(gar)), "[0]" if gres > 1 else "")
